@@ -213,6 +213,101 @@ def toks(bs):
     return " ".join(str(b) for b in bs)
 
 
+# ---------------------------------------------------------------- the sweep over initial directory states (op 7)
+F_FAV, F_TMP, F_FAV4, F_STALE, F_BAK = 0, 1, 2, 3, 4
+
+
+def bl_tree(rng, n, decorate):
+    """a boards-and-lines tree both as a constructor script and as the .fav4 file that fav.Load converts to it
+    (.fav4: counts int16/int8/int8, per entry type, attr, then 12-byte board (bid, lastvisit, attr, 3 pad) | 1-byte line)"""
+    ops, ents, nb, nl = [], [], 0, 0
+    for i in range(n):
+        attr = 1
+        if rng.random() < decorate:
+            attr = rng.choice([0, 2, 3, 5, -1, -2, 127, -128, 1, 9])
+        if rng.random() < 0.6:
+            nb += 1
+            bid = nb
+            lv, ba = 0, 0
+            ops.append([1, 0, bid])
+            if rng.random() < decorate:
+                lv, ba = rng.choice([0, 1, -1, 2**31 - 1, -2**31]), rng.choice([0, 1, -1, 127, -128, 8])
+                ops.append([5, 0, i, lv, ba])
+            ents.append([T_BOARD] + le(attr, 1) + le(bid, 4) + le(lv, 4) + le(ba, 1) + [0, 0, 0])
+        else:
+            nl += 1
+            ops.append([2, 0])
+            ents.append([T_LINE] + le(attr, 1) + [nl])
+        if attr != 1:
+            ops.append([4, 0, i, attr])
+    fav4 = le(nb, 2) + le(nl, 1) + [0] + [b for e in ents for b in e]
+    return "|".join(" ".join(str(x) for x in g) for g in ops), fav4
+
+
+def bl_tree_of(shape):
+    """the same for a fixed shape (a string over B and L), plain entries"""
+    ops, ents, nb, nl = [], [], 0, 0
+    for ch in shape:
+        if ch == "B":
+            nb += 1
+            ops.append("1 0 %d" % nb)
+            ents.append([T_BOARD, 1] + le(nb, 4) + le(0, 4) + [0, 0, 0, 0])
+        else:
+            nl += 1
+            ops.append("2 0")
+            ents.append([T_LINE, 1, nl])
+    return "|".join(ops), le(nb, 2) + le(nl, 1) + [0] + [b for e in ents for b in e]
+
+
+def sweep_line(hasfav, mode, rel, fav4, stale, old, new):
+    g = ["7", "%d %d %d" % (hasfav, mode, rel),
+         "77 0" if fav4 is None else ("77 1 " + toks(fav4)).strip(),
+         "78 0" if stale is None else ("78 1 " + toks(stale)).strip()]
+    if old:
+        g.append(old)
+    g.append("99")
+    if new:
+        g.append(new)
+    return "|".join(g)
+
+
+def showf(b):
+    return "absent" if b is None else "(%d bytes) %s" % (len(b), toks(b)[:300])
+
+
+def parse_sweep(res):
+    """result of op 7 -> (pre old tree, pre new tree, K, [ (files {code: bytes or list of bytes}, load) ] )"""
+    t = res.split()
+    pos = 1
+    n = int(t[pos]); pre_old, end = parse_fav(t, pos + 1); assert end == pos + 1 + n; pos = end
+    n = int(t[pos]); pre_new, end = parse_fav(t, pos + 1); assert end == pos + 1 + n; pos = end
+    K = int(t[pos]); pos += 1
+    states = []
+    for _ in range(K + 1):
+        nf = int(t[pos]); pos += 1
+        files = {}
+        for _ in range(nf):
+            code, ln = int(t[pos]), int(t[pos + 1])
+            files.setdefault(code, []).append([int(x) for x in t[pos + 2:pos + 2 + ln]])
+            pos += 2 + ln
+        ls = int(t[pos])
+        if ls == 0:
+            m = int(t[pos + 1])
+            if m < 0:
+                load = ("nil",) if m == -1 else ("converted",)
+                pos += 2
+            else:
+                tr, end = parse_fav(t, pos + 2); assert end == pos + 2 + m
+                load = ("tree", tr); pos = end
+        elif ls == 3:
+            load = ("error", int(t[pos + 1])); pos += 2
+        else:
+            load = ("crash" if ls == 1 else "hang",); pos += 1
+        states.append((files, load))
+    assert pos == len(t), "trailing tokens"
+    return pre_old, pre_new, K, states
+
+
 # ---------------------------------------------------------------- the check
 def main():
     c = vf.Check("C19")
@@ -230,11 +325,15 @@ def main():
     c.finish(rule="trees: every forest of <= N entries and depth <= 3 (N = 6 quick and thorough) + PRNG(seed) larger forests with random titles, "
                   "attrs (FAVH_FAV dropped here and there) and board payloads, through NewFavRaw/Add*/Save/Load; "
                   "loader: every byte string of length <= L over {00,01,02,03,7F,80,FF} after the version word and as the whole file + mutated valid images; "
-                  "crash: a child process dies at EVERY crash point of a save, for every forest of <= 3 entries and random larger ones. "
+                  "crash: a child process dies at EVERY crash point of a save, for every forest of <= 3 entries and random larger ones, over an existing .fav and "
+                  "over every other initial state of the home (no .fav, .fav4 lying around or being converted by Load, .fav older / same mtime / newer / same content, stale temporary file); "
+                  "after each death the whole directory is compared with the model's file system and fav.Load is run. "
                   "A case is non-trivial if it is a distinct saved tree / distinct loader input reaching a distinct result class / distinct (tree, crash point)",
              assumptions=["rename(2) replaces the target atomically and data written before the process dies survives it (no power loss): Base/Fs.v",
                           "the process death is simulated by os.Exit at verif-tagged crash points (before every types.BinaryWrite of the save and before the rename)",
                           "the mtime comparison of Save is driven through the exported MTime field (newer / equal / older than the file)",
+                          "the .fav4 files of the conversion sweep are written by the check (boards and lines only: fav4ReadFavrec rejects every .fav4 that contains a folder)",
+                          "a stale temporary file is planted under a fixed name .fav.tmp.stale-left-by-a-crash; a collision with the 22 random characters of the save's own temporary name is covered by the theorem (any directory) only",
                           "encoding/binary little-endian fixed-size reads and writes are re-specified in Model/C19.v and exercised, not verified"])
 
 
@@ -446,6 +545,120 @@ def run(c, rng, thorough, impl, model, scratch):
     c.count(npoints + len(l5), "crash points (one child process each)")
     c.cov["exhaustive_parts"].append("every crash point (each types.BinaryWrite + before the rename) of every save in the sweep: %d child processes" % (npoints + len(l5)))
     c.sample({"op": "crash sweep", "case": l5[30], "result": o5[30][:120]})
+
+    # ---------------------------------------------------------------- 6. the same sweep over EVERY initial state of the home directory
+    # no .fav (first save of a user) / no .fav but a .fav4 (lying around, or being converted: the save inside fav.Load) /
+    # an existing .fav (older, same mtime, newer; same content) / a temporary file left by an earlier crash.
+    # The child dies at every crash point; the whole directory and fav.Load afterwards are observed each time.
+    small2 = [f for n in range(0, 3) for f in forests(n, 3)]
+    small3 = [f for n in range(0, 4) for f in forests(n, 3)]
+    fav4_other = bl_tree_of("BLB")[1]
+    stale_imgs = [[], VERSION, VERSION + [1, 0, 0, 0, T_BOARD, 1, 7, 0], [0xFF] * 40]
+    cases7 = []          # (label, hasfav, mode, rel, fav4, stale, old script, new script)
+    demo = ("B", "L", ("F", ("B", "B")), "B", "B")                                   # reported first if the first save is not atomic
+    cases7.append(("first save", 0, 0, 1, None, None, "", script_of(demo)))
+    for i, f in enumerate(small3):                                                   # first save, nothing else in the home
+        cases7.append(("first save", 0, 0, (1, 0, -1)[i % 3], None, None, "", script_of(f)))
+    for _ in range(30 if thorough else 4):
+        cases7.append(("first save", 0, 0, rng.choice([1, 0, -1]), None, None, "", script_of(random_forest(rng, rng.choice([5, 9, 14]), 4), rng, 0.2)))
+    for i, f in enumerate(small2):                                                   # first save, a stale temp file / a .fav4 lying around
+        cases7.append(("first save + stale temp file", 0, 0, 1, None, stale_imgs[i % 4], "", script_of(f)))
+        cases7.append(("first save + .fav4 + stale temp file", 0, 0, (0, -1, 1)[i % 3], fav4_other, stale_imgs[(i + 1) % 4], "", script_of(f)))
+    shapes_bl = [""] + [a for n in range(1, 4) for a in map("".join, __import__("itertools").product("BL", repeat=n))]
+    for i, sh in enumerate(shapes_bl):                                               # the .fav4 conversion (Load -> TryFav4Load -> Save)
+        sc, f4 = bl_tree_of(sh)
+        cases7.append((".fav4 conversion", 0, 1, 0, f4, None, "", sc))
+        cases7.append((".fav4 conversion + stale temp file", 0, 1, 0, f4, stale_imgs[i % 4], "", sc))
+    for _ in range(20 if thorough else 3):
+        sc, f4 = bl_tree(rng, rng.choice([4, 7, 12]), 0.3)
+        cases7.append((".fav4 conversion", 0, 1, 0, f4, rng.choice([None] + stale_imgs), "", sc))
+    for i, f in enumerate(small2):                                                   # over an existing .fav
+        sc = script_of(f)
+        cases7.append(("older .fav + .fav4 + stale temp file", 1, 0, 1, fav4_other, stale_imgs[i % 4], base_old, sc))
+        cases7.append(("older .fav, same content", 1, 0, 1, None, None, sc, sc))
+        cases7.append((".fav with the same mtime", 1, 0, 0, None, stale_imgs[(i + 2) % 4] if i % 2 else None, base_old, sc))
+        cases7.append(("newer .fav", 1, 0, -1, None, stale_imgs[(i + 3) % 4] if i % 2 else None, base_old, sc))
+    for _ in range(20 if thorough else 2):
+        cases7.append(("older .fav + stale temp file", 1, 0, 1, None, rng.choice(stale_imgs),
+                       script_of(random_forest(rng, rng.choice([2, 6]), 3), rng, 0.2), script_of(random_forest(rng, rng.choice([5, 9]), 4), rng, 0.2)))
+    l7 = [sweep_line(*cs[1:]) for cs in cases7]
+    t7 = __import__("time").time()
+    # the children of different cases are independent: run the sweep in parallel slices, each in its own scratch home
+    NPAR = 4
+    from concurrent.futures import ThreadPoolExecutor
+    def slice_run(j):
+        d = os.path.join(scratch, "par%d" % j)
+        os.makedirs(d, exist_ok=True)
+        return vf.run_impl(impl, "C19", l7[j::NPAR], env={"VERIF_C19_DIR": d}, deadline_ms=120000)
+    with ThreadPoolExecutor(NPAR) as ex:
+        parts = list(ex.map(slice_run, range(NPAR)))
+    o7 = [None] * len(l7)
+    for j in range(NPAR):
+        o7[j::NPAR] = parts[j]
+    m7 = vf.run_model(model, l7) if model else None
+    if model:
+        vf.correspond(c, "crash sweep over every initial directory state (all files of the home, Load afterwards)", l7, o7, m7)
+    if os.environ.get("VERIF_C19_TIMING"):
+        print("C19 timing: directory-state sweep %.1fs" % (__import__("time").time() - t7))
+    npoints7 = 0
+    dist7 = {}
+    for i7, (cs, line, res) in enumerate(zip(cases7, l7, o7)):
+        label, hasfav, mode, rel, fav4, stale, old_sc, new_sc = cs
+        rp = {"cases": [line]}
+        if m7:
+            rp["expected"] = m7[i7]          # the line a save through the temporary file prints (the model's)
+        if res.split()[0] != "0":
+            c.violation("crash-sweep-failed", "%s: the crash sweep could not be run (status %s)" % (label, res.split()[0]), dict(rp, got=res[:200]))
+            continue
+        pre_old, pre_new, K, states = parse_sweep(res)
+        npoints7 += K + 1
+        dist7[label] = dist7.get(label, 0) + K + 1
+        want_old, want_new = expected_after_save(pre_old), expected_after_save(pre_new)
+        OLD = VERSION + ref_write(want_old) if hasfav else None          # reference images, not what the code wrote
+        NEW = VERSION + ref_write(want_new)
+        gate_open = (not hasfav) or rel > 0
+        before = "no .fav" if OLD is None else "the old .fav"
+        for k, (files, load) in enumerate(states, 1):
+            c.nontrivial(("crash7", line, k))
+            at = "crash point %d of %d" % (k, K) if k <= K else "the completed save"
+            cur = files.get(F_FAV, [None])[0]
+            ok_states = [OLD, NEW] if gate_open else [OLD]
+            if k == K + 1:
+                ok_states = [NEW] if gate_open else [OLD]
+            if cur not in ok_states:
+                if k == K + 1:
+                    c.violation("save-incomplete", "%s: a completed save left neither image" % label, dict(rp, got=".fav = " + showf(cur), expected_fav=showf(ok_states[0])))
+                elif not gate_open:
+                    c.violation("gate-writes", "%s: Save changed .fav although the file is not older than the tree in memory" % label,
+                                dict(rp, crash_point=k, got=".fav = " + showf(cur), expected_fav=showf(OLD)))
+                else:
+                    c.violation("torn-file" if hasfav else "torn-first-save",
+                                "%s: process death at %s leaves a .fav of %s bytes that is neither %s nor the complete new image (%d bytes)"
+                                % (label, at, len(cur) if cur is not None else "no", before, len(NEW)),
+                                dict(rp, crash_point=k, got=".fav = " + showf(cur), expected_fav="%s, or %s" % (showf(OLD), showf(NEW))))
+            # Load afterwards
+            if cur is None:
+                want_load = [("converted",)] if fav4 is not None else [("nil",)]
+            else:
+                want_load = [("tree", w) for w, img in ((want_old, OLD), (want_new, NEW)) if img == cur]
+            if load not in want_load:
+                c.violation("load-after-crash", "%s: after a process death at %s fav.Load %s" % (label, at,
+                            "fails with error %s" % load[1] if load[0] == "error" else load[0] if load[0] in ("crash", "hang") else "does not return the old or the new tree"),
+                            dict(rp, crash_point=k, got=repr(load)[:400], expected_load=repr(want_load)[:400], fav=showf(cur)))
+            # frame: nothing but .fav and the save's own temporary file is touched
+            if files.get(F_FAV4, [None]) != [fav4] or files.get(F_STALE, [None]) != [stale] or 9 in files:
+                c.violation("save-touches-other-file", "%s: at %s .fav4 / a stale temporary file / another file of the home changed" % (label, at),
+                            dict(rp, crash_point=k, got=repr({k_: v for k_, v in files.items() if k_ in (F_FAV4, F_STALE, 9)})[:400]))
+        if gate_open and K < 5:
+            c.violation("crash-points-missing", "%s: a save passed only %d crash points: the hooks are not in place" % (label, K), dict(rp, got=res[:100]))
+        if not gate_open and K != 0:
+            c.violation("gate-writes", "%s: a save that must not write passed %d crash points (types.BinaryWrite was called)" % (label, K), dict(rp, got=res[:100]))
+    c.count(npoints7, "crash points over every initial directory state (one child process each)")
+    c.cov["distribution"]["child processes per initial directory state"] = dist7
+    c.cov["exhaustive_parts"].append("every crash point of the first save (no .fav) of all %d forests of <= 3 entries, of the .fav4 conversion of all %d board/line lists of <= 3 entries, "
+                                     "and of saves over an existing .fav (older / same mtime / newer / same content), with and without a stale temporary file and a .fav4: %d child processes"
+                                     % (len(small3), len(shapes_bl), npoints7))
+    c.sample({"op": "crash sweep, first save", "case": l7[5], "result": o7[5][:160]})
 
 
 if __name__ == "__main__":
